@@ -78,4 +78,10 @@ theorem C13_store_sites :
     Gomjml.Gen.Misc.syncMapOps.filter (fun r => r.2.2 == "Store" || r.2.2 == "Swap" || r.2.2 == "LoadOrStore" || r.2.2 == "CompareAndSwap")
       = [("mjml.parseAST", "astCache", "Store")] := by decide
 
+/-- Regenerated fact: **the cache key is computed from the template as the caller passed it** — `hashTemplate` is called in
+    one place, on the parameter itself, and the parameter is never assigned to.  A key over a trimmed, normalised or
+    re-encoded copy (three of the seeded changes: documents that differ in leading blank lines share a tree and report each
+    other's line numbers) breaks this theorem. -/
+theorem C13_key_is_the_template : Gomjml.Gen.Misc.cacheKeyArgs = [("mjml.parseAST", "mjmlContent")] := by decide
+
 end Gomjml.Props.C13
